@@ -503,12 +503,15 @@ void random_cfg(Rng &rng, Cfg &cfg, bool wellformed) {
         if (rng.chance(1, 5)) cfg.set("res_decomp", 0);
         if (rng.chance(1, 4)) { static const long B[] = {1024, 4096, 65536, 1048576}; cfg.set("bomb_limit", B[rng.below(4)]); }
         if (rng.chance(1, 6)) cfg.set("allow_space_uri", 1);
-        if (rng.chance(1, 5)) cfg.set("extract_files", 1);
+        if (rng.chance(1, 5)) { cfg.set("extract_files", 1); if (rng.coin()) cfg.set("extract_limit", (long) rng.below(4)); }
         if (rng.chance(1, 6)) cfg.set("decomp_layers", (long) rng.below(4));
         if (rng.chance(1, 4)) cfg.set("disposal", (long) rng.range(2, 3));
         if (rng.chance(1, 3)) { cfg.set("dec_swarm", (long) rng.below(1000000) + 1); cfg.set("dec_swarm_urlenc", rng.coin()); }
         if (rng.chance(1, 6)) cfg.set("cfg_copy", 1);
         if (rng.chance(1, 10)) cfg.set("null_ts", 1);
+        if (rng.chance(1, 8)) { static const long M[] = {0, 1024, 65536, 1048576}; cfg.set("lzma_memlimit", M[rng.below(4)]); }
+        if (rng.chance(1, 8)) { static const long T[] = {1, 100, 100000, 10000000}; cfg.set("time_limit", T[rng.below(4)]); }
+        if (rng.chance(1, 8)) cfg.set("lzma_layers", (long) rng.below(3));
     }
 }
 
@@ -566,7 +569,12 @@ void mutate_stream(Rng &rng, Bytes &s, int n_mut) {
                     "Content-Encoding: deflate, lzma\r\n", "Content-Encoding: lzma\r\n", "Connection: close\r\n", "Expect: 100-continue\r\n", "Upgrade: h2c\r\n", "Content-Type: multipart/form-data; boundary=X\r\n",
                     "Content-Type: application/x-www-form-urlencoded\r\n", "Authorization: Bearer abc\r\n", "Authorization: Basic !!!\r\n", "Authorization: Basic\r\n", "Authorization: Digest username=\r\n", "Authorization: Digest username=\"a\\\"b\r\n",
                     "Authorization: NTLM abc\r\n", "Host: a:b\r\n", "Host: [::1]:80\r\n", "Host: \r\n", "Cookie: =; ;a\r\n", " folded\r\n", "\tfolded: x\r\n", "Content-Length: 18446744073709551616\r\n", "Content-Length: -1\r\n",
-                    "Transfer-Encoding: identity\r\n", "Content-Type: multipart/form-data\r\n", "Content-Type: multipart/form-data; boundary=\r\n", "Content-Type: multipart/form-data; boundary=\"a b\"; boundary=c\r\n"};
+                    "Transfer-Encoding: identity\r\n", "Content-Type: multipart/form-data\r\n",
+                    "Content-Disposition: form-data; name=\"a\"; name=\"b\"\r\n", "Content-Disposition: form-data; name=a\r\n", "Content-Disposition: form-data; name='a'\r\n", "Content-Disposition: attachment\r\n",
+                    "Content-Disposition: form-data; filename=\"x\r\n", "Content-Disposition: form-data name=\"a\"\r\n", "Content-Disposition: form-data; name=\"a\" x\r\n", "Content-Disposition: form-data; =\"a\"\r\n",
+                    "Content-Disposition: form-data; name=\"a\"; filename=\"f\"; filename=\"g\"\r\n", "Content-Type: multipart/form-data; boundary='x'\r\n", "Content-Type: multipart/form-data; boundary=\"x y\"\r\n",
+                    "Content-Type: multipart/form-data; BOUNDARY=x; boundary=y\r\n", "Content-Type: multipart/form-data; boundary=x; charset=utf-8\r\n", "Content-Type: multipart/form-data; boundary = x\r\n",
+                    "Content-Type: multipart/form-data; boundary=x,y\r\n", "Content-Type: multipart/form-data boundary=x\r\n", "Content-Type: MULTIPART/FORM-DATA; boundary=\"x\r\n", "X-Unknown-Part-Header: v\r\n", "Content-Type: multipart/form-data; boundary=\r\n", "Content-Type: multipart/form-data; boundary=\"a b\"; boundary=c\r\n"};
                 size_t e = s.find('\n', p); if (e != std::string::npos) s.insert(e + 1, LINES[rng.below(sizeof LINES / sizeof *LINES)]);
                 break;
             }
